@@ -670,7 +670,7 @@ package mocrelay
 //@ func mergeHandlerSessionReqState.IsSendableEventMsg
 //@   serves C08
 //@   requires reqWF(stat) && msg != nil && wfEvent(msg.Event) && 0 <= chIdx && chIdx < stat.size
-//@   writes contents(stat.eose), contents(stat.lastEvent), contents(stat.seen), contents(stat.matcher), contents(stat.seen[msg.SubscriptionID]), each(i, 0, len(lmList(stat.matcher[msg.SubscriptionID])), lmList(stat.matcher[msg.SubscriptionID])[i].cnt)
+//@   writes contents(stat.eose), contents(stat.lastEvent), contents(stat.seen), contents(stat.matcher), contents(stat.seen[msg.SubscriptionID]), when(reqActive(stat, msg.SubscriptionID), each(i, 0, len(lmList(stat.matcher[msg.SubscriptionID])), lmList(stat.matcher[msg.SubscriptionID])[i].cnt))
 //@   ensures reqWF(stat)
 //@   ensures !old(reqActive(stat, msg.SubscriptionID)) ==> result
 //@   ensures all(s, string, reqActive(stat, s) == old(reqActive(stat, s)))
@@ -703,7 +703,7 @@ package mocrelay
 //@   opt tokens=reqStat
 //@   requires ss != nil && msg != nil && typeis(msg.Msg, *ServerEventMsg) && as(msg.Msg, *ServerEventMsg) != nil && wfEvent(as(msg.Msg, *ServerEventMsg).Event)
 //@   requires !tokheld(ss.reqStat) && reqWF(tokval(ss.reqStat)) && 0 <= msg.Idx && msg.Idx < tokval(ss.reqStat).size
-//@   writes token(ss.reqStat), contents(tokval(ss.reqStat).eose), contents(tokval(ss.reqStat).lastEvent), contents(tokval(ss.reqStat).seen), contents(tokval(ss.reqStat).matcher), contents(tokval(ss.reqStat).seen[as(msg.Msg, *ServerEventMsg).SubscriptionID]), each(i, 0, len(lmList(tokval(ss.reqStat).matcher[as(msg.Msg, *ServerEventMsg).SubscriptionID])), lmList(tokval(ss.reqStat).matcher[as(msg.Msg, *ServerEventMsg).SubscriptionID])[i].cnt)
+//@   writes token(ss.reqStat), contents(tokval(ss.reqStat).eose), contents(tokval(ss.reqStat).lastEvent), contents(tokval(ss.reqStat).seen), contents(tokval(ss.reqStat).matcher), contents(tokval(ss.reqStat).seen[as(msg.Msg, *ServerEventMsg).SubscriptionID]), when(reqActive(tokval(ss.reqStat), as(msg.Msg, *ServerEventMsg).SubscriptionID), each(i, 0, len(lmList(tokval(ss.reqStat).matcher[as(msg.Msg, *ServerEventMsg).SubscriptionID])), lmList(tokval(ss.reqStat).matcher[as(msg.Msg, *ServerEventMsg).SubscriptionID])[i].cnt))
 //@   ensures !tokheld(ss.reqStat) && reqWF(tokval(ss.reqStat))
 //@   ensures[C08] result != nil ==> result == as(msg.Msg, *ServerEventMsg)
 //@   ensures[C08] !old(reqActive(tokval(ss.reqStat), as(msg.Msg, *ServerEventMsg).SubscriptionID)) ==> result != nil
@@ -772,6 +772,7 @@ package mocrelay
 //@   requires !tokheld(ss.reqStat) && reqWF(tokval(ss.reqStat)) && 0 <= msg.Idx && msg.Idx < tokval(ss.reqStat).size
 //@   requires !tokheld(ss.okStat) && okWF(tokval(ss.okStat)) && msg.Idx < tokval(ss.okStat).size
 //@   requires !tokheld(ss.countStat) && cntWF(tokval(ss.countStat)) && msg.Idx < tokval(ss.countStat).size
+//@   writes token(ss.reqStat), token(ss.okStat), token(ss.countStat), contents(tokval(ss.reqStat).eose), contents(tokval(ss.reqStat).lastEvent), contents(tokval(ss.reqStat).seen), contents(tokval(ss.reqStat).matcher), eachkey(k, tokval(ss.reqStat).seen, contents(tokval(ss.reqStat).seen[k])), eachkey(k, tokval(ss.reqStat).matcher, each(i, 0, len(lmList(tokval(ss.reqStat).matcher[k])), lmList(tokval(ss.reqStat).matcher[k])[i].cnt)), contents(tokval(ss.okStat).s), contents(tokval(ss.countStat).counts)
 //@   ensures !tokheld(ss.reqStat) && reqWF(tokval(ss.reqStat)) && !tokheld(ss.okStat) && okWF(tokval(ss.okStat)) && !tokheld(ss.countStat) && cntWF(tokval(ss.countStat))
 //@   ensures (!typeis(msg.Msg, *ServerEOSEMsg) && !typeis(msg.Msg, *ServerEventMsg) && !typeis(msg.Msg, *ServerOKMsg) && !typeis(msg.Msg, *ServerCountMsg)) ==> result == msg.Msg
 //@   ensures (typeis(msg.Msg, *ServerEOSEMsg) || typeis(msg.Msg, *ServerEventMsg)) ==> (isnil(as(result, *ServerEOSEMsg)) || result == msg.Msg || isnil(as(result, *ServerEventMsg)))
@@ -781,6 +782,7 @@ package mocrelay
 //@   requires ss != nil && wfClientMsg(msg)
 //@   requires typeis(msg, *ClientReqMsg) ==> as(msg, *ClientReqMsg).ReqFilters != nil
 //@   requires !tokheld(ss.reqStat) && reqWF(tokval(ss.reqStat)) && !tokheld(ss.okStat) && okWF(tokval(ss.okStat)) && !tokheld(ss.countStat) && cntWF(tokval(ss.countStat))
+//@   writes token(ss.reqStat), token(ss.okStat), token(ss.countStat), contents(tokval(ss.reqStat).eose), contents(tokval(ss.reqStat).lastEvent), contents(tokval(ss.reqStat).seen), contents(tokval(ss.reqStat).matcher), eachkey(k, tokval(ss.reqStat).seen, contents(tokval(ss.reqStat).seen[k])), eachkey(k, tokval(ss.reqStat).matcher, each(i, 0, len(lmList(tokval(ss.reqStat).matcher[k])), lmList(tokval(ss.reqStat).matcher[k])[i].cnt)), contents(tokval(ss.okStat).s), contents(tokval(ss.countStat).counts)
 //@   ensures !tokheld(ss.reqStat) && reqWF(tokval(ss.reqStat)) && !tokheld(ss.okStat) && okWF(tokval(ss.okStat)) && !tokheld(ss.countStat) && cntWF(tokval(ss.countStat))
 //@   ensures result == msg
 
@@ -863,20 +865,29 @@ package mocrelay
 
 //@ iface (SimpleHandlerBase).ServeNostrStart
 //@   params(b, ctx)
+//@   writes ghost(started, b)
+//@   promises g(started, refof(b)) == (result1 == nil)
 //@ iface (SimpleHandlerBase).ServeNostrEnd
 //@   params(b, ctx)
+//@   writes ghost(endcalls, b)
+//@   promises g(endcalls, refof(b)) == old(g(endcalls, refof(b))) + 1
 //@ iface (SimpleHandlerBase).ServeNostrClientMsg
 //@   params(b, ctx, msg)
 //@   ensures (result1 == nil && !isnil(result0)) ==> (fresh(result0) && chanhead(result0) == 0)
+//@   promises g(endcalls, refof(b)) == old(g(endcalls, refof(b))) && g(started, refof(b)) == old(g(started, refof(b)))
 
 //@ func SimpleHandler.ServeNostr
-//@   serves C16
+//@   serves C16 C13
 //@   requires h != nil
+//@   assert @exit: g(endcalls, refof(h.base)) == old(g(endcalls, refof(h.base))) + ite(g(started, refof(h.base)), 1, 0)
+//@   loop 1
+//@     invariant g(started, refof(h.base)) && g(endcalls, refof(h.base)) == old(g(endcalls, refof(h.base)))
 //@   loop 2
 //@     lwrites contents(send), contents(smsgCh), ghost(dropped, send)
 //@     invariant !isnil(smsgCh) && fresh(smsgCh) && chanbuf(smsgCh) == lold(chanbuf(smsgCh)) && lold(chanhead(smsgCh)) <= chanhead(smsgCh) && chanhead(smsgCh) <= len(chanbuf(smsgCh))
 //@     invariant g(dropped, send) >= lold(g(dropped, send))
 //@     invariant[C16] g(dropped, send) == lold(g(dropped, send)) ==> extendsBy(chanbuf(send), lold(chanbuf(send)), chanbuf(smsgCh), lold(chanhead(smsgCh)), chanhead(smsgCh))
+//@     invariant g(started, refof(h.base)) && g(endcalls, refof(h.base)) == old(g(endcalls, refof(h.base)))
 
 //@ func DefaultSimpleHandlerBase.ServeNostrClientMsg
 //@   serves C16
@@ -939,7 +950,7 @@ package mocrelay
 //@   ensures (result1 == nil && !isnil(result0)) ==> (fresh(result0) && chanhead(result0) == 0)
 
 //@ func simpleMiddlewareHandleRecv
-//@   serves C17
+//@   serves C17 C13
 //@   requires refof(send) != refof(rCh)
 //@   loop 2
 //@     lwrites contents(send), contents(smsgCh), ghost(dropped, send)
@@ -957,7 +968,7 @@ package mocrelay
 //@     invariant[C17] g(dropped, rCh) > lold(g(dropped, rCh)) || extendsByC(chanbuf(rCh), lold(chanbuf(rCh)), chanbuf(cmsgCh), lold(chanhead(cmsgCh)), chanhead(cmsgCh))
 
 //@ func simpleMiddlewareHandleSend
-//@   serves C17
+//@   serves C17 C13
 //@   requires refof(send) != refof(sCh)
 //@   loop 2
 //@     lwrites contents(send), contents(smsgCh), ghost(dropped, send)
@@ -1031,3 +1042,85 @@ package mocrelay
 //@   requires relay != nil && conn != nil
 //@   writes ghost(lastpingctx, conn)
 //@   ensures[C13] relay.opt.SendTimeout > 0 ==> pingBoundedBy(conn, relay.opt.SendTimeout)
+
+// ---- safeMap (generic; verified at the instantiation used by the router registry)
+//@ func safeMap.Delete
+//@   serves C07 C13 C15
+//@   opt inst.K=string
+//@   opt inst.V=*subscriber
+//@   requires m != nil && m.m != nil && held(m.mu) == 0
+//@   writes contents(m.m), lock(m.mu)
+//@   ensures held(m.mu) == 0 && !has(m.m, k) && all(j, string, j != k ==> (has(m.m, j) == old(has(m.m, j)) && m.m[j] == old(m.m[j])))
+//@ func safeMap.Add
+//@   serves C07 C15
+//@   opt inst.K=string
+//@   opt inst.V=*subscriber
+//@   requires m != nil && m.m != nil && held(m.mu) == 0
+//@   writes contents(m.m), lock(m.mu)
+//@   ensures held(m.mu) == 0 && has(m.m, k) && m.m[k] == v && all(j, string, j != k ==> (has(m.m, j) == old(has(m.m, j)) && m.m[j] == old(m.m[j])))
+//@ func safeMap.TryGet
+//@   serves C07 C15
+//@   opt inst.K=string
+//@   opt inst.V=*subscriber
+//@   requires m != nil && held(m.mu) == 0
+//@   writes lock(m.mu)
+//@   ensures held(m.mu) == 0 && result1 == has(m.m, k) && result0 == m.m[k]
+//@ func safeMap.Get
+//@   serves C07 C15
+//@   opt inst.K=string
+//@   opt inst.V=*subscriber
+//@   requires m != nil && held(m.mu) == 0
+//@   writes lock(m.mu)
+//@   ensures held(m.mu) == 0 && result == m.m[k]
+
+//@ func subscribers.UnsubscribeAll
+//@   serves C07 C13
+//@   requires subs != nil && subs.subs != nil && subs.subs.m != nil && held(subs.subs.mu) == 0
+//@   writes contents(subs.subs.m), lock(subs.subs.mu)
+//@   ensures held(subs.subs.mu) == 0 && !has(subs.subs.m, reqID)
+//@   ensures all(j, string, j != reqID ==> (has(subs.subs.m, j) == old(has(subs.subs.m, j)) && subs.subs.m[j] == old(subs.subs.m[j])))
+
+//@ func RouterHandler.recv
+//@   serves C07
+//@   trusted placeholder until the router registry contracts (C07) are in place
+//@   requires router != nil && router.subs != nil && router.subs.subs != nil && router.subs.subs.m != nil && held(router.subs.subs.mu) == 0
+//@   writes contents(router.subs.subs.m), eachkey(k, router.subs.subs.m, contents(router.subs.subs.m[k].m)), anychan(ServerMsg)
+//@   ensures held(router.subs.subs.mu) == 0
+
+// every exit of a router session removes the session's subscriptions and cancels the session context;
+// every blocking select of the session is cancellable
+//@ func RouterHandler.ServeNostr
+//@   serves C13
+//@   requires router != nil && router.buflen >= 0 && router.subs != nil && router.subs.subs != nil && router.subs.subs.m != nil && held(router.subs.subs.mu) == 0
+//@   assert @exit: calledcount(cancel) >= 1
+//@   assert @exit: !has(router.subs.subs.m, reqID)
+
+// the forwarding loops of a merged session and of the relay's writer: every blocking select is cancellable
+//@ func mergeHandlerSession.handleRecv
+//@   serves C13 C08 C09
+//@   requires sessionWF(ss) && forall(i, 0, len(chanbuf(recv)), wfRecvMsg(chanbuf(recv)[i]))
+//@   requires forall(i, 0, len(ss.recvs), refof(ss.recvs[i]) != refof(recv))
+//@   loop 1
+//@     invariant sessionWF(ss) && chanbuf(recv) == lold(chanbuf(recv)) && 0 <= chanhead(recv)
+//@ func mergeHandlerSession.handleSend
+//@   serves C13 C08 C09
+//@   requires sessionWF(ss) && forall(i, 0, len(chanbuf(ss.preSendCh)), wfSendMsg(ss, chanbuf(ss.preSendCh)[i]))
+//@   requires !chanclosed(ss.preSendCh) && refof(send) != refof(ss.preSendCh)
+//@   loop 1
+//@     invariant sessionWF(ss) && chanbuf(ss.preSendCh) == lold(chanbuf(ss.preSendCh)) && 0 <= chanhead(ss.preSendCh) && !chanclosed(ss.preSendCh)
+//@ func mergeHandlerSession.mergeSend
+//@   serves C13
+//@   requires ss != nil
+//@ func mergeHandlerSession.broadcastRecvs
+//@   serves C13
+//@   requires ss != nil
+//@   writes each(i, 0, len(ss.recvs), contents(ss.recvs[i])), each(i, 0, len(ss.recvs), ghost(dropped, ss.recvs[i]))
+//@   loop 1
+//@     lwrites each(i, 0, len(ss.recvs), contents(ss.recvs[i])), each(i, 0, len(ss.recvs), ghost(dropped, ss.recvs[i]))
+//@ func newMergeHandlerSessionSendMsg
+//@   serves C13 C08 C09
+//@   writes nothing
+//@   ensures fresh(result) && result.Idx == idx && result.Msg == msg
+//@ func RouterHandler.ServeNostr$1
+//@   serves C13
+//@   assert @exit: calledcount(cancel) >= 1
